@@ -11,6 +11,7 @@ import configparser
 import os
 import random
 import sys
+import zlib
 
 os.environ.setdefault('HABUTAX_VERIF', '1')
 
@@ -64,7 +65,18 @@ def interp(t, s, i, v, own):
             raise ToyError(t[1])
         if k == 'V' or k == 'I':
             name = expand_name(t[1], own)
-            val = v[name] if k == 'V' else i[name]
+            acc = v if k == 'V' else i
+            # a read is a read however it is spelled: the accessors are Mappings, and on them `m.get(k)` and `k in m`
+            # go through `m[k]`, whose "not there yet" signals (UnmetDependency, MissingInput, ...) are NOT KeyErrors
+            # and must reach the solver (seed C01g made them KeyErrors: `get`/`in` swallowed the demand and the
+            # return was "solved" with the demanded line never scheduled).  The model op is the same `V`/`I` read.
+            style = zlib.crc32((own + '/' + name).encode()) % 4
+            if style == 1:
+                val = acc.get(name)
+            elif style == 2:
+                val = acc[name] if name in acc else None
+            else:
+                val = acc[name]
             for c, sub in t[2]:
                 if val == c:
                     t = sub
